@@ -62,6 +62,15 @@ def cmd_replay(a) -> int:
     prop = doc["property"]
     repo = a.repo or os.environ.get("VERIF_REPO") or "/repo"
     worker.init_worker(repo, doc.get("knobs", {}), prop)
+    if doc.get("history"):
+        # the violation needs what earlier runs left behind in the process: execute them first
+        mod = worker.get_prop(prop)
+        for t in doc["history"]:
+            try:
+                mod.execute(t)
+            except Exception:  # noqa: BLE001
+                pass
+        print(f"[replay] executed {len(doc['history'])} predecessor run(s)")
     res = worker.execute_trace(prop, doc["trace"])
     key = doc["violation"]["key"]
     v = worker.violation_matches(res, key)
